@@ -36,6 +36,156 @@ def _first_pop(fn: ast.AST, kw: str, name: str):
     return None
 
 
+class _Fold(ast.NodeTransformer):
+    """constant folding of conditions after a parameter was replaced by its default"""
+
+    def visit_UnaryOp(self, node):
+        self.generic_visit(node)
+        if isinstance(node.op, ast.Not) and isinstance(node.operand, ast.Constant):
+            return ast.copy_location(ast.Constant(value=not node.operand.value), node)
+        return node
+
+    def visit_Compare(self, node):
+        self.generic_visit(node)
+        if len(node.ops) == 1 and isinstance(node.left, ast.Constant) and isinstance(node.comparators[0], ast.Constant):
+            a, b = node.left.value, node.comparators[0].value
+            op = node.ops[0]
+            try:
+                v = {ast.Is: a is b, ast.IsNot: a is not b, ast.Eq: a == b, ast.NotEq: a != b}.get(type(op))
+            except Exception:
+                v = None
+            if v is not None and (a is None or b is None or isinstance(op, (ast.Eq, ast.NotEq))):
+                return ast.copy_location(ast.Constant(value=bool(v)), node)
+        return node
+
+    def visit_BoolOp(self, node):
+        self.generic_visit(node)
+        is_and = isinstance(node.op, ast.And)
+        vals = []
+        for v in node.values:
+            if isinstance(v, ast.Constant):
+                if bool(v.value) == is_and:
+                    continue  # neutral element
+                vals.append(v)  # absorbing element: the rest is never evaluated
+                break
+            vals.append(v)
+        if not vals:
+            return ast.copy_location(ast.Constant(value=is_and), node)
+        if len(vals) == 1:
+            return vals[0]
+        node.values = vals
+        return node
+
+    def visit_IfExp(self, node):
+        self.generic_visit(node)
+        if isinstance(node.test, ast.Constant):
+            return node.body if node.test.value else node.orelse
+        return node
+
+    def visit_If(self, node):
+        self.generic_visit(node)
+        if isinstance(node.test, ast.Constant):
+            body = node.body if node.test.value else node.orelse
+            return body or [ast.copy_location(ast.Pass(), node)]
+        return node
+
+
+def _passed_somewhere(program) -> Dict[str, set]:
+    """callee name -> keyword names passed / maximal number of positional arguments at any call site in the package"""
+    out: Dict[str, set] = {}
+    for m in program.modules.values():
+        for x in ast.walk(m.tree):
+            if isinstance(x, ast.Call):
+                nm = x.func.attr if isinstance(x.func, ast.Attribute) else x.func.id if isinstance(x.func, ast.Name) else None
+                if nm is None:
+                    continue
+                e = out.setdefault(nm, set())
+                for k in x.keywords:
+                    e.add(k.arg if k.arg is not None else "**")
+                e.add(("npos", len(x.args) + (100 if any(isinstance(a, ast.Starred) for a in x.args) else 0)))
+    return out
+
+
+def _new_params_at_default(program, tab) -> List[str]:
+    """A parameter the pinned function does not have and that has a constant default is, for every existing caller, that
+    constant: the function is analysed at the default (what `f(..)` of today's call sites does) -- unless some call site in the
+    package passes it (then the new behaviour is in use and is analysed as written)."""
+    log: List[str] = []
+    passed = _passed_somewhere(program)
+    for q, s in tab.items():
+        fi = program.functions.get(q)
+        sig = s.get("signature")
+        if fi is None or sig is None or not isinstance(fi.node, (ast.FunctionDef, ast.AsyncFunctionDef)):
+            continue
+        a = fi.node.args
+        old = set(sig.get("pos", [])) | set(sig.get("kwonly", {})) | set(s.get("option_defaults", {}))
+        pos = a.posonlyargs + a.args
+        new = {}
+        for p_, d_ in list(zip(pos[len(pos) - len(a.defaults):], a.defaults)) + [(p_, d_) for p_, d_ in zip(a.kwonlyargs, a.kw_defaults) if d_ is not None]:
+            if p_.arg in old:
+                continue
+            if isinstance(d_, ast.Constant) or (isinstance(d_, ast.UnaryOp) and isinstance(d_.operand, ast.Constant)):
+                new[p_.arg] = d_
+        new = {k: v for k, v in new.items() if not any(isinstance(x, ast.Name) and x.id == k and isinstance(x.ctx, (ast.Store, ast.Del)) for x in ast.walk(fi.node))}
+        used = passed.get(fi.node.name, set())
+        names_pos = [x.arg for x in pos]
+        is_method = fi.cls is not None and getattr(fi, "parent", None) is None
+        for k in list(new):
+            if k in used or "**" in used:
+                del new[k]
+            elif k in names_pos:
+                idx = names_pos.index(k) - (1 if is_method else 0)
+                if any(isinstance(u, tuple) and u[1] > idx for u in used):
+                    del new[k]
+        if not new:
+            continue
+
+        class Sub(ast.NodeTransformer):
+            def visit_Name(self, node):
+                if isinstance(node.ctx, ast.Load) and node.id in new:
+                    return ast.copy_location(ast.Constant(value=ast.literal_eval(new[node.id])), node)
+                return node
+
+            def visit_FunctionDef(self, node):
+                inner = {x.arg for x in node.args.posonlyargs + node.args.args + node.args.kwonlyargs}
+                if inner & set(new):
+                    return node
+                return self.generic_visit(node)
+
+            visit_Lambda = visit_FunctionDef
+
+        fi.node.body = [Sub().visit(st) for st in fi.node.body]
+        body = []
+        for st in fi.node.body:
+            r = _Fold().visit(st)
+            body += r if isinstance(r, list) else [r]
+        # `v = <literal>` directly followed by an unconditional `v = ..` that does not read v (left over from a folded `if`)
+        def _tgt(st):
+            if isinstance(st, ast.Assign) and len(st.targets) == 1 and isinstance(st.targets[0], ast.Name):
+                return st.targets[0].id
+            if isinstance(st, ast.AnnAssign) and isinstance(st.target, ast.Name) and st.value is not None:
+                return st.target.id
+            return None
+
+        i = 0
+        while i + 1 < len(body):
+            a_, b_ = body[i], body[i + 1]
+            if _tgt(a_) and _tgt(a_) == _tgt(b_) and isinstance(a_.value, (ast.Constant, ast.List, ast.Dict, ast.Set, ast.Tuple)) and not any(isinstance(x, ast.Name) and x.id == _tgt(a_) for x in ast.walk(b_.value)):
+                del body[i]
+                continue
+            i += 1
+        fi.node.body = body or [ast.Pass()]
+        ast.fix_missing_locations(fi.node)
+        for attr in ("_mdsa_single_defs", "_mdsa_objnames"):
+            if hasattr(fi.node, attr):
+                try:
+                    delattr(fi.node, attr)
+                except AttributeError:
+                    pass
+        log.append(f"{q}: new parameter(s) {sorted(new)} analysed at their default value")
+    return log
+
+
 def apply(program) -> List[str]:
     log: List[str] = []
     if not TABLE.exists():
@@ -103,4 +253,5 @@ def apply(program) -> List[str]:
                         delattr(fi.node, attr)
                     except AttributeError:
                         pass
+    log += _new_params_at_default(program, tab)
     return log
